@@ -57,7 +57,7 @@ import (
 
 const (
 	maxIndex    = 16*1024*8 - 1 // revocation.maxBitstringIndex (unexported); checked against the real code in calibrate()
-	tickSeconds = 6 * 3600      // one model tick = a quarter of statusListValidity (24h)
+	defaultTick = 6 * 3600      // one model tick = a quarter of statusListValidity (24h); re-measured by calibrate()
 	issuerBase  = "https://issuer.example"
 )
 
@@ -290,12 +290,14 @@ type world struct {
 	atkKS *nutsCrypto.Crypto
 	run   *runState
 	seq   int
+	// tick: seconds of one model tick = a quarter of the validity window of the list credentials the node issues
+	tick int64
 	// lastIndex: the highest index Entry() hands out on a page (discovered by calibrate(); maxIndex in the code as it is)
 	lastIndex int
 }
 
 func buildWorld(t *testing.T, in input) *world {
-	w := &world{t: t, lastIndex: maxIndex, ctx: audit.TestContext(), in: in, res: &memResolver{docs: map[string]*did.Document{}}, nodes: map[string]*verifierNode{}}
+	w := &world{t: t, lastIndex: maxIndex, tick: defaultTick, ctx: audit.TestContext(), in: in, res: &memResolver{docs: map[string]*did.Document{}}, nodes: map[string]*verifierNode{}}
 	w.jl = jsonld.NewTestJSONLDManager(t)
 	dir := t.TempDir()
 	keyRes := resolver.DIDKeyResolver{Resolver: w.res}
@@ -642,7 +644,8 @@ func (r *runState) onServed(url string, body []byte) *servedDoc {
 		agedSince := r.aged - r.agedAt(cred.IssuanceDate)
 		remaining := cred.ExpirationDate.Sub(now) - time.Duration(agedSince)*time.Second
 		issuedAgo := now.Sub(cred.IssuanceDate) + time.Duration(agedSince)*time.Second
-		sd.Left = int((remaining + tickSeconds*time.Second - 1) / (tickSeconds * time.Second))
+		tick := time.Duration(w.tick) * time.Second
+		sd.Left = int((remaining + tick - 1) / tick)
 		if remaining < 0 {
 			sd.Left = 0
 		}
@@ -880,7 +883,7 @@ func (r *runState) doStep(st step) error {
 		sd := r.onServed(url, body)
 		r.ev(map[string]any{"ev": "serve", "i": i, "p": p, "signer": r.modelIssuer(sd.Issuer), "left": sd.Left, "bits": r.modelBits(url, sd.Bits), "sigok": sd.SigOK})
 	case "Tick":
-		if err := r.ageRows(tickSeconds); err != nil {
+		if err := r.ageRows(w.tick); err != nil {
 			return err
 		}
 		r.ev(map[string]any{"ev": "tick"})
@@ -1337,6 +1340,18 @@ func (w *world) calibrate() error {
 		return fmt.Errorf("could not find the end of a status list page near index %d (last index seen: %d)", maxIndex, last)
 	}
 	w.lastIndex = last
+	// validity window of the served list credentials -> length of a tick
+	cred, err := w.inode.iss.StatusList(w.ctx, r.web["i1"], 1)
+	if err != nil {
+		return err
+	}
+	if cred.ExpirationDate == nil {
+		return errors.New("served list credential has no expirationDate")
+	}
+	w.tick = int64(cred.ExpirationDate.Sub(cred.IssuanceDate).Seconds()) / 4
+	if w.tick < 3600 {
+		return fmt.Errorf("validity of list credentials is %s: a quarter of it does not exceed the 15 minute cache TTL by a safe margin", cred.ExpirationDate.Sub(cred.IssuanceDate))
+	}
 	return nil
 }
 
